@@ -222,6 +222,8 @@ class NpzFmt(Fmt):
                 "nans": rng.random() < 0.2}
         if rng.random() < P_SPOT:  # an image saved from spot-wise data: the loader returns a SpotConfig (header class "Spot")
             make_spot(rng, spec)
+        if rng.random() < 0.4:  # calibrations other than the default one (the loader returns them with the image)
+            spec["calibration"] = [rng.choice(CAL_CHOICES) for _ in els]
         return spec
 
     def write(self, path, spec, vals):
@@ -235,7 +237,9 @@ class NpzFmt(Fmt):
         for e, g, d in zip(spec["elements"], vals, dts):
             data[e] = cast_values(g, d).reshape(spec["h"], spec["w"])
         config = SpotConfig(*spec["config"][:2]) if spec.get("cfg", "raster") == "spot" else Config(*spec["config"])
-        laser = Laser(data, config=config, info={"Name": spec["stem"]})
+        cals = spec.get("calibration") or []
+        laser = Laser(data, config=config, info={"Name": spec["stem"]},
+                      calibration={e: make_calibration(c) for e, c in zip(spec["elements"], cals) if c is not None})
         with path.open("wb") as fp:  # a file object: numpy appends '.npz' to other names
             npz.save(fp, laser)
 
@@ -479,7 +483,7 @@ def path_facts(path: Path):
     return f
 
 
-def call_loader(desc, path: Path):
+def call_loader(desc, path: Path, cal=None):
     """execute ONE library call named by the driver (`c20.plan`) -> the call record sent back to it"""
     from pewlib.io import agilent, csv, npz, perkinelmer, textimage, thermo
 
@@ -500,6 +504,8 @@ def call_loader(desc, path: Path):
         elif name == "npz":
             laser = npz.load(path)
             data, config = laser.data, laser.config
+            if cal is not None and data.dtype.names is not None:
+                rec["calib"] = cal.of(laser, data.dtype.names)
         else:
             raise core.InternalError(f"driver named an unknown loader {desc}")
         if data.ndim != 2 or data.dtype.names is None:
@@ -507,7 +513,8 @@ def call_loader(desc, path: Path):
         names = list(data.dtype.names)
         rec.update({"outcome": "ok", "h": int(data.shape[0]), "w": int(data.shape[1]),
                     "fields": [{"name": n, "data": [t for row in grid_tokens(data[n]) for t in row]} for n in names],
-                    "params": param_tokens(params), "config": None if config is None else cfg_tokens(config)})
+                    "params": param_tokens(params), "config": None if config is None else cfg_tokens(config),
+                    "dtypes": [data.dtype[n].str for n in names]})
         rec["_data"] = data
     except core.InternalError:
         raise
@@ -641,6 +648,81 @@ def param_tokens(params):
         else:
             out.append(ctok(params[key]))
     return out
+
+
+class CalTable:
+    """per case: calibrations as small integers (0 = the default `Calibration()`), by content"""
+
+    def __init__(self):
+        from pewlib import Calibration
+
+        self.ids = {self.key(Calibration()): 0}
+
+    @staticmethod
+    def key(c):
+        def opt(x):
+            return None if x is None else ctok(x)
+        return core.canon([ctok(c.intercept), ctok(c.gradient), str(c.unit), opt(c.rsq), opt(c.error),
+                           [[ctok(x), ctok(y)] for x, y in np.asarray(c.points, dtype=np.float64).reshape(-1, 2)],
+                           str(c.weighting), [ctok(w) for w in np.asarray(c._weights, dtype=np.float64).ravel()]])
+
+    def tok(self, c):
+        return self.ids.setdefault(self.key(c), len(self.ids))
+
+    def of(self, laser, names):
+        return [self.tok(laser.calibration[n]) for n in names]
+
+
+CAL_CHOICES = [None, None, None, {"intercept": 2.5, "gradient": 0.5, "unit": "ppm"}, {"intercept": 0.0, "gradient": 3.0, "unit": ""},
+               {"intercept": -1.25, "gradient": 40.0, "unit": "ug/g", "points": [[0.0, 1.0], [1.0, 41.5], [2.0, 79.0]], "rsq": 0.998,
+                "weighting": "1/x"},
+               {"intercept": 0.125, "gradient": 1.0, "unit": "cps", "points": [[0.0, 0.0], [10.0, 10.5]], "rsq": 1.0, "error": 0.25}]
+
+
+def make_calibration(d):
+    from pewlib import Calibration
+
+    if d is None:
+        return Calibration()
+    return Calibration(intercept=d["intercept"], gradient=d["gradient"], unit=d.get("unit", ""), rsq=d.get("rsq"), error=d.get("error"),
+                       points=np.array(d["points"], dtype=np.float64) if d.get("points") else None, weights=d.get("weighting", "Equal"))
+
+
+F8 = np.dtype(np.float64).str  # "<f8"
+
+
+class CastTable:
+    """what NumPy makes of float64 values put into fields of another storage type, and the type np.concatenate promotes to:
+    the tables the driver's `Casting` is realised from (asked of NumPy, never computed here)"""
+
+    def __init__(self):
+        self.casts = {}
+        self.promote = {}
+
+    def add(self, t, values):
+        """values: float64 array; -> the float64 array of what a field of type `t` holds"""
+        t = np.dtype(t)
+        a = np.asarray(values, dtype=np.float64).ravel()
+        with np.errstate(all="ignore"), warnings.catch_warnings():
+            warnings.simplefilter("ignore")
+            b = a.astype(t).astype(np.float64)
+        if t.str != F8:
+            for x, y in zip(a, b):
+                self.casts[(t.str, ctok(x))] = ctok(y)
+        return b
+
+    def result_type(self, types):
+        key = tuple(np.dtype(t).str for t in types)
+        if key not in self.promote:
+            try:
+                self.promote[key] = np.result_type(*[np.dtype(t) for t in types]).str
+            except TypeError:
+                self.promote[key] = None
+        return self.promote[key]
+
+    def request(self):
+        return {"casts": [{"type": t, "src": v, "dst": w} for (t, v), w in sorted(self.casts.items())],
+                "promote": [{"types": list(k), "result": r} for k, r in sorted(self.promote.items()) if r is not None]}
 
 
 def canon_files(files):
@@ -1160,7 +1242,7 @@ class C20(Prop):
             os.chdir(old_cwd)
 
     @staticmethod
-    def read_back(root: Path, rel: str):
+    def read_back(root: Path, rel: str, cal=None):
         from pewlib.io import npz, textimage
 
         p = root / rel
@@ -1171,7 +1253,9 @@ class C20(Prop):
                 laser = npz.load(p)
                 names = list(laser.data.dtype.names)
                 out.update({"kind": "npz", "elements": names, "shape": list(laser.data.shape),
-                            "data": [grid_tokens(laser.data[n]) for n in names], "config": cfg_tokens(laser.config)})
+                            "data": [grid_tokens(laser.data[n]) for n in names], "config": cfg_tokens(laser.config),
+                            "calib": [0] * len(names) if cal is None else cal.of(laser, names),
+                            "_dtypes": [laser.data.dtype[n].str for n in names]})
             elif suffix == ".csv":
                 g = textimage.load(p)
                 out.update({"kind": "csv", "shape": list(g.shape), "data": grid_tokens(g)})
@@ -1215,6 +1299,8 @@ class C20(Prop):
         root = ctx.tmpdir()
         cmd = case["cmd"]
         feats = {f"cmd:{cmd}", f"mode:{case['mode']}", f"format:{case['format']}"}
+        cal = CalTable()
+        casts = CastTable()
         # ---- 1. inputs (a path named twice is ONE input on disk: the description of its first occurrence counts)
         inputs, first_of = [], {}
         for spec in case["inputs"]:
@@ -1258,7 +1344,7 @@ class C20(Prop):
         plan = ctx.driver.call("c20.plan", sources=sources)["candidates"]
         datas = []  # per source: the arrays of the successful calls (for the filter table)
         for src, rel, cands in zip(sources, run_rels, plan):
-            recs = [call_loader(c, root / rel) for c in cands]
+            recs = [call_loader(c, root / rel, cal) for c in cands]
             datas.append([r.pop("_data") for r in recs if r["outcome"] == "ok"])
             src["calls"] = recs
         for spec, src in zip(inputs, sources):  # writer / loader sanity for the ordinary inputs
@@ -1293,9 +1379,8 @@ class C20(Prop):
                                 # the command line stores the result in the field of the loaded image: a result the field's
                                 # storage type cannot hold (the mean filter of an integer image) is outside what the property
                                 # can mean by "exactly the library filter" -> recorded, never a verdict
-                                back = np.asarray(res).astype(data.dtype[n]).astype(np.float64)
-                                if not np.array_equal(back, np.asarray(res, dtype=np.float64), equal_nan=True):
-                                    undetermined = True
+                                back = casts.add(data.dtype[n], np.asarray(res, dtype=np.float64))
+                                if not np.array_equal(back, np.asarray(res, dtype=np.float64).ravel(), equal_nan=True):
                                     feats.add("filter:result-not-representable-in-field-type (recorded only)")
                                 if rel in repeated:
                                     again = [t for row in grid_tokens(func(np.array(res), size, thr)) for t in row]
@@ -1341,9 +1426,21 @@ class C20(Prop):
             padv = math.nan if case["pad"] in ("default", "nan") else float(case["pad"])
             if not all(representable(padv, t) for ts in types for t in ts):
                 # np.pad holds the pad value in the storage type of each input (NaN or 2.5 in an integer image): the property's
-                # "the pad value everywhere else" cannot be met there -> recorded, never a verdict
-                undetermined = True
+                # "the pad value everywhere else" cannot be met there -> recorded, never a verdict (decided by the driver: TypesHold)
                 feats.add("stack:pad-not-representable-in-an-input-type (recorded only)")
+            # what NumPy makes of the pad value in each input's types, and of every value in the promoted types
+            names0 = list(loaded[0].dtype.names)
+            if all(list(a.dtype.names) == names0 for a in loaded):
+                for fi, n in enumerate(names0):
+                    col = [ts[fi] for ts in types]
+                    wide = casts.result_type(col)
+                    held = [casts.add(t, [padv]) for t in col]
+                    if wide is not None:
+                        casts.add(wide, [padv])
+                        for hv in held:
+                            casts.add(wide, hv)
+                        for a in loaded:
+                            casts.add(wide, np.asarray(a[n], dtype=np.float64))
             if len(types) > 1 and len({len(ts) for ts in types}) == 1:
                 per_field = list(zip(*types))
                 if any(len(set(col)) > 1 for col in per_field):
@@ -1360,7 +1457,13 @@ class C20(Prop):
                         pass
                 elif other_types:
                     feats.add("stack:one-narrow-type-throughout")
+        req.update(casts.request())
         rep = ctx.driver.call("c20.run", **req)
+        if not rep["types_hold"]:
+            # a storage type cannot hold the pad value or the filter's result: the typed mechanism (the model) and the
+            # specification differ by `runT_refines_spec`'s hypothesis -> counted as hypothesis-excluded, never a verdict
+            undetermined = True
+            feats.add("types-do-not-hold (recorded only)")
 
         def spacing_of(cfg):
             """the spacing `save` hands to io.vtk.save, from the configuration of the model's image, through the library's
@@ -1370,9 +1473,11 @@ class C20(Prop):
 
         def side(r):
             files = []
-            for f in canon_files(r["files"]):
+            for f in canon_files(r["files"]):  # (the driver sends `finalFiles`: every path once; sorted here)
                 if f["kind"] == "vtk":
                     f = {k: v for k, v in f.items() if k != "config"} | {"spacing": spacing_of(f["config"])}
+                if f["kind"] == "npz" and cmd == "stack":  # the property says nothing about the calibration of a stack
+                    f = {k: v for k, v in f.items() if k != "calib"}
                 files.append(f)
             return {"status": r["status"], "files": files}
         model, spec_ = side(rep["model"]), side(rep["spec"])
@@ -1388,7 +1493,7 @@ class C20(Prop):
         def load_side(x):
             if "fail" in x:
                 return "fail"
-            return {k: x[k] for k in ("elements", "shape", "data", "config")}
+            return {k: x[k] for k in ("elements", "shape", "data", "config", "calib")}
         if hasattr(cli_mod, "load"):
             direct, kinds = [], []
             for rel, src in zip(run_rels, sources):
@@ -1401,7 +1506,7 @@ class C20(Prop):
                         laser = cli_mod.load(root / rel)
                     names = list(laser.data.dtype.names)
                     direct.append({"elements": names, "shape": list(laser.data.shape), "data": [grid_tokens(laser.data[n]) for n in names],
-                                   "config": cfg_tokens(laser.config)})
+                                   "config": cfg_tokens(laser.config), "calib": cal.of(laser, names)})
                     kinds.append(None)
                 except Exception as e:  # noqa: BLE001
                     direct.append("fail")
@@ -1423,7 +1528,12 @@ class C20(Prop):
         after = snapshot(root)
         written = sorted(p for p in after if before.get(p) != after[p])
         removed = sorted(p for p in before if p not in after)
-        impl = {"status": status, "files": [self.read_back(root, p) for p in written]}
+        impl = {"status": status, "files": [self.read_back(root, p, cal) for p in written]}
+        out_types = {f["path"]: f.pop("_dtypes") for f in impl["files"] if "_dtypes" in f}
+        stack_cal = None
+        for f in impl["files"]:
+            if f["kind"] == "npz" and cmd == "stack":
+                stack_cal = f.pop("calib")
         if removed:
             impl["removed"] = removed
 
@@ -1526,8 +1636,36 @@ class C20(Prop):
                     feats.add("stack:transposed-pair")
         if any(s["nans"] for s in inputs):
             feats.add("nan-values")
+        # calibrations (an .npz input carries them; every other loader gives the default): kept by convert / filter -> compared;
+        # of a stack: recorded only
+        if any(any(c != 0 for c in r.get("calib", [])) for src in sources for r in src["calls"]):
+            feats.add("in:calibration")
+            if any(f.get("kind") == "npz" and any(c != 0 for c in f.get("calib", [])) for f in spec_["files"]):
+                feats.add("out:calibration-kept")
+        if stack_cal is not None:
+            want = [f["calib"] for f in rep["spec"]["files"] if f.get("kind") == "npz"]
+            if want and any(c != 0 for c in want[0] + stack_cal):
+                feats.add("stack:calibration-" + ("of-first-input" if want[0] == stack_cal else "differs") + " (recorded only)")
+        # storage types of the written .npz files (recorded only): convert / filter keep the loaded types, stack promotes
+        if out_types and spec_["status"] == "ok" and all(ts is not None for ts in types):
+            if cmd == "stack":
+                try:
+                    want_t = [np.result_type(*col).str for col in zip(*types)]
+                except (TypeError, ValueError):
+                    want_t = None
+                got = next(iter(out_types.values()))
+                if want_t is not None and other_types:
+                    feats.add("out-types-" + ("promoted" if got == want_t else "differ") + " (recorded only)")
+            elif other_types:
+                by_name = [dict(zip(a.dtype.names, [t.str for t in ts])) for a, ts in zip(loaded, types)]
+                ok_t = True
+                for f in impl["files"]:
+                    if f["kind"] == "npz" and f["path"] in out_types:
+                        ok_t = ok_t and any(all(d.get(n) == t for n, t in zip(f["elements"], out_types[f["path"]])) for d in by_name)
+                feats.add("out-types-" + ("as-loaded" if ok_t else "differ") + " (recorded only)")
         nontrivial = bool(spec_["files"]) or spec_["status"] == "error"
-        return outcome(impl, model, spec_, undetermined=undetermined, features=feats if nontrivial else [])
+        return outcome(impl, model, spec_, undetermined=undetermined, hyp=bool(rep["types_hold"]),
+                       features=feats if nontrivial else [])
 
     # ------------------------------------------------------------------ shrinking
     def shrink(self, case):
